@@ -143,7 +143,10 @@ func meaningKeys(j *ast.Journal) []string {
 			// a directive line may lose its trailing blanks: an unterminated quoted symbol ends with the line
 			out = append(out, fmt.Sprintf("commodity %q format%q %v", strings.TrimRight(v.Commodity.Symbol, " \t"), v.Format, v.Subdirs))
 		case ast.PriceDirective:
-			out = append(out, fmt.Sprintf("P %04d-%02d-%02d %q %s", v.Date.Year, v.Date.Month, v.Date.Day, v.Commodity.Symbol, amountKey(&v.Price)))
+			// as above: an unterminated quoted symbol at the end of the line loses its trailing blanks
+			price := v.Price
+			price.Commodity.Symbol = strings.TrimRight(price.Commodity.Symbol, " \t")
+			out = append(out, fmt.Sprintf("P %04d-%02d-%02d %q %s", v.Date.Year, v.Date.Month, v.Date.Day, strings.TrimRight(v.Commodity.Symbol, " \t"), amountKey(&price)))
 		case ast.YearDirective:
 			out = append(out, fmt.Sprintf("Y %d", v.Year))
 		case ast.DefaultCommodityDirective:
